@@ -645,6 +645,15 @@ func c05Literals(rep *ev.Reporter, mu *sync.Mutex) int64 {
 		{`"é漢字😀"`, "dq-unicode", false}, {`'\a\b\f\r\v'`, "sq-esc", false}, {`"// not a comment"`, "dq", false}, {`"/* nor this */"`, "dq", false}, {`"x;}then{"`, "dq", false},
 		{"true", "bool", false}, {"FALSE", "bool", false}, {"tRuE", "bool", false},
 	}
+	// every single-byte escape in hex and octal notation, both quote styles, alone and between letters
+	for b := 0; b < 256; b++ {
+		lits = append(lits,
+			c05Lit{fmt.Sprintf(`"\x%02x"`, b), "dq-esc-byte", false}, c05Lit{fmt.Sprintf(`'\%03o'`, b), "sq-esc-byte", false},
+			c05Lit{fmt.Sprintf(`'a\x%02Xb'`, b), "sq-esc-byte", false}, c05Lit{fmt.Sprintf(`"a\%03ob"`, b), "dq-esc-byte", false})
+	}
+	for _, u := range []string{`\u0041`, `\u00e9`, `\u6f22`, `\U0001F600`, `\u0000`, `\uFFFD`, `\u007f`, `\u0080`} {
+		lits = append(lits, c05Lit{`"` + u + `"`, "dq-esc-unicode", false}, c05Lit{`'x` + u + `y'`, "sq-esc-unicode", false})
+	}
 	lits = append(lits, c05DocLiterals()...)
 	var n int64
 	for i, l := range lits {
@@ -674,6 +683,9 @@ func c05Literals(rep *ev.Reporter, mu *sync.Mutex) int64 {
 		text := fmt.Sprintf("rule r { when K.K == 0 then %s = %s; K.K = 1; }", sink, t)
 		lib, err := hx.BuildText(text)
 		sigBase := fmt.Sprintf("C05:literal:%s:%q", l.class, t)
+		if strings.Contains(l.class, "-esc-byte") {
+			sigBase = "C05:literal:" + l.class // 1024 members of one family: one signature
+		}
 		if err != nil {
 			mu.Lock()
 			rep.Violation("C05:literal-rejected:"+fmt.Sprintf("%q", t), fmt.Sprintf("literal %s (%s, documented=%v) is rejected by the builder: %v", t, l.class, l.fromDoc, firstLineOf(err.Error())), map[string]interface{}{"case": id, "grl": text})
